@@ -383,6 +383,11 @@ pub fn check(tier: &str) -> i32 {
                     if (v == Variant::SharedNs || v == Variant::AlternatingNs) && n < 3 {
                         continue;
                     }
+                    // quick tier: the two spelling/namespace variants added last run on all graphs with
+                    // up to 3 files and, for 4 files, on those with at most 6 import edges (thorough: all)
+                    if tier == "quick" && n == 4 && matches!(v, Variant::AlternatingNs | Variant::AnnotatedImports) && e.count_ones() > 6 {
+                        continue;
+                    }
                     // references across an import CYCLE are finding F-C08-1 (C08's); here: acyclic graphs
                     if v == Variant::CrossReferences && (e == 0 || graph_features(n, e).0 != "acyclic") {
                         continue;
@@ -442,6 +447,7 @@ pub fn check(tier: &str) -> i32 {
     }
     rep.assume("start file fixed to file 0: the files are identical up to their index, so every (graph, start) pair is isomorphic to one explored (relabelling symmetry)");
     rep.assume("variant cross-file-bases-and-refs (a type per import edge that extends the imported file's type and refs its global element) is run on the graphs whose reachable part is acyclic; across import cycles such references are finding F-C08-1");
+    rep.assume("quick tier, n = 4: the variants two-namespaces-alternating and annotation-before-and-between-the-imports are run on the graphs with at most 6 import edges only (all graphs in the thorough tier)");
     rep.assume("component multiplicity is read lexically (identifier after the `struct` keyword); the component names ZvT<i>/ZvS<i> occur nowhere else");
     rep.assume("random graphs over more than four files (quantifier text) are not explored: that would be sampling");
     rep.finish()
